@@ -4,7 +4,7 @@ Deciding monitors (post-conditions on the real functions):
 
 * ``rs.bound`` / ``sk.bound``   the emitted sequence's unitary (product of a gate table written here, incl. GlobalPhase) is within epsilon of the
                                 target rotation in operator norm up to a global phase; a miss is only excused when the documented search budget
-                                was exhausted (observed through wrappers on the module-level helpers) – then it is re-run with a 10x budget
+                                was exhausted (observed through wrappers on the module-level helpers)
 * ``rs.gateset`` / ``sk.gateset``  only Clifford+T gates are emitted and the last operation is the documented GlobalPhase
 * ``ct.gate``     every (RZ angle, per-gate epsilon) -> sequence event inside ``clifford_t_decomposition`` (the cached callable is wrapped): within
                   the per-gate epsilon requested by *this* run (catches cache reuse for a different angle / looser epsilon)
@@ -30,8 +30,9 @@ META = {
                   "validation is exercised (monitor gridsynth.validation, not deciding). The qjit branch of rs_decomposition is not reachable. "
                   "Distances are operator 2-norms minimised over a global phase (the statement's norm); agreement *including* the returned "
                   "GlobalPhase is monitored separately (rs.phase, sk.phase, ct.phase) and counted. At epsilon <= ~1.5e-8 float64 makes the "
-                  "acceptance threshold 1-eps^2/2 round to 1.0: the grid search then always exhausts max_search_trials and returns its 1e-3 "
-                  "warm-start fallback – documented as 'error could be >= epsilon', recorded as budget_limited, not as a violation.",
+                  "acceptance threshold 1-eps^2/2 round to 1.0 and the grid search is left through a swallowed exception: reported as mechanism "
+                  "rs:float64-floor. A miss after all max_search_trials attempts is the documented behaviour and is only counted (budget_limited); the "
+                  "design's 10x-budget re-run is infeasible because trial k costs ~2^k.",
     "shards": {"quick": 3, "thorough": 16},
     "budget_s": {"quick": 100, "thorough": 300},
     "min_evals": {"quick": 400, "thorough": 3000},
@@ -293,20 +294,10 @@ def run(ctx):
         if status == "budget_limited":
             ctx.count("rs.budget_limited")
             ctx.note_add("rs.budget_limited_examples", {"theta": theta, "eps": eps, "dist": d}, cap=10)
-            # documented: error may be >= eps after max_search_trials attempts.  Re-run with a 10x budget.
-            try:
-                status, d, _ = rs_classify(op, eps, {"max_search_trials": 200, "max_factoring_trials": 10000}, tgt)
-            except Exception as e:  # noqa: BLE001
-                viol("rs.bound", f"rs_decomposition (10x budget) raised {type(e).__name__}: {str(e)[:200]}", info, f"rs:raises:{type(e).__name__}")
-                return
-            ctx.ev("rs.bound")
-            if status == "ok":
-                return
-            if status == "budget_limited":
-                ctx.count("rs.budget_limited_10x")
-                ctx.cover("rs/budget-limited-10x")
-                return
-            info = {**info, "budget": "10x"}
+            # documented: "the approximation error could be >= epsilon" once max_search_trials attempts have been made.  The design's re-run with a 10x
+            # budget is not feasible: the cost of grid-search trial k grows like 2^k (200 trials do not terminate), so the miss is recorded and excused.
+            ctx.cover("rs/budget-limited")
+            return
         if status == "aborted":
             info = {**info, "search_trials_made": obs["last_trials"], "max_search_trials": obs["grid_max"]}
             viol("rs.bound", f"rs_decomposition({kind}({theta!r}), eps={eps:g}): sequence is {d:.3e} from the target (up to phase) and the grid search was left after "
@@ -548,11 +539,31 @@ def run(ctx):
             return  # explained by a per-gate event already classified above
         # mechanism classifier: is the excess explained by rotation angles within 1e-6 of a multiple of pi having been replaced by that multiple?
         mech = "ct:circuit-bound"
-        for o in tape.operations:  # PhaseShift(k pi/4), k = 3 or 5 mod 8, is T^3 / T^5 – the transform's shortcut emits T^dagger / T for every odd k
-            if o.name == "PhaseShift":
-                q = float(o.data[0]) / (math.pi / 4)
-                if abs(q - round(q)) * (math.pi / 4) < 1e-6 and int(round(q)) % 8 in (3, 5):
+        # Mechanism test by intervention: PhaseShift(k pi/4) with k = 3 or 5 (mod 8) is T^3 / T^5, but the transform's shortcut emits T^dagger / T for
+        # every odd k.  Such angles may sit in a PhaseShift or inside gates that decompose into one (U2, U3, ControlledPhaseShift, ...).  Move every
+        # such angle by 2e-5 (outside the shortcut's 1e-6 window) and transform again: if that circuit is approximated correctly, the shortcut is the cause.
+        def _odd(a):
+            q = a / (math.pi / 4)
+            return abs(q - round(q)) * (math.pi / 4) < 1e-6 and int(round(q)) % 8 in (3, 5)
+
+        try:
+            moved, hit = [], False
+            for o in tape.operations:
+                ps = [float(np.real(_scalar(d_))) for d_ in o.data]
+                if ps and any(_odd(a) for a in ps) and o.name in ("PhaseShift", "U1", "U2", "U3", "ControlledPhaseShift", "CPhaseShift00", "CPhaseShift01", "CPhaseShift10", "Rot"):
+                    moved.append(type(o)(*[a + 2e-5 if _odd(a) else a for a in ps], wires=o.wires))
+                    hit = True
+                else:
+                    moved.append(o)
+            if hit:
+                t2 = qp.tape.QuantumScript(moved, tape.measurements)
+                [new2], _ = qp.transforms.clifford_t_decomposition(t2, epsilon=eps, method=method, **kw)
+                U2out, bad2 = tape_matrix(new2, wires)
+                U2in, _ = bridge.tape_unitary(moved, wires)
+                if not bad2 and opnorm_phase(U2out, U2in) <= eps * (1 + 1e-6) + 1e-9:
                     mech = "ct:phaseshift-odd-pi/4-shortcut"
+        except Exception:  # noqa: BLE001
+            pass
         try:
             snapped = []
             for o in tape.operations:
